@@ -7,6 +7,26 @@ CHECKS = {}
 STORES = {"InMem": "inmem", "Sql1": "sqlfile"}
 
 
+def rich_programs(rng, nproc, nops):
+    """like random_programs, with requests for every counter-relevant outcome: bad proofs, same-size forks, stale old sizes, bad signatures"""
+    progs = random_programs(rng, nproc, nops)
+    for prog in progs:
+        for op in prog:
+            if op["kind"] != "update":
+                continue
+            x = rng.random()
+            rq = op["req"]
+            if x < 0.15 and rq["old"] > 0 and rq["n"] > rq["old"]:
+                rq["pf"] = {"k": "bad", "kind": rng.choice(["flip", "drop", "add", "random"])}
+            elif x < 0.3 and rq["n"] >= 2:
+                rq["b"] = 1
+                rq["old"] = rq["n"]
+                rq["pf"] = {"k": "empty"}          # same size, the fork's root: split view if the witness holds the main history at that size
+            elif x < 0.36:
+                rq["auth"] = rng.choice(["badsig", "unknownkey", "nosig"])
+    return progs
+
+
 def random_programs(rng, nproc, nops):
     """free-running mode: honest growth chains on two logs with conflicting duplicates, forks, refreshes and readers"""
     progs = []
@@ -290,6 +310,23 @@ def fault_pipeline(work, rep, tier, seed, prop):
                     runs_by[(stkind, "iface")].append({"id": "%s-hold%d%s" % (scen, k_, call), "steps": pre + steps + TAIL})
                 nh += 1
         rep.cov.setdefault("context_cancelled_during_storage_call", {})[scen] = nh
+        # the storage layer PANICS inside one call of one update; the caller recovers (as net/http and the bastion's HTTP/2 server do per request)
+        npn = 0
+        for k_, op_ in enumerate(prog):
+            if op_["kind"] != "update":
+                continue
+            for call in ("WriteOps", "GetLatest", "Set"):      # (a panic in Close comes after the commit: the update WAS accepted)
+                steps = []
+                for j_, o2 in enumerate(prog):
+                    st_ = {"op": "get", "log": o2["log"]} if o2["kind"] == "read" else {"op": "update", "log": o2["log"], "req": o2["req"]}
+                    if j_ == k_:
+                        st_["faults"] = ["panic:" + call]
+                    steps.append(st_)
+                pre = [x for x in (seqfam.tofu_steps(db0_of(db), 2) if db == "s1" else []) if x["log"] == "l1"]
+                for stkind in ("inmem", "sqlfault"):
+                    runs_by[(stkind, "iface")].append({"id": "%s-panic%d%s" % (scen, k_, call), "steps": pre + steps + TAIL})
+                npn += 1
+        rep.cov.setdefault("storage_call_panics_recovered_by_the_caller", {})[scen] = npn
     jc = seqfam.consts(Logs={"l1", "l2"}, MaxSize=3, NBranch=2, ForkAt=Sub("Fork_1"))
     all_events = []
     for (store, lv), runs in runs_by.items():
